@@ -8,6 +8,8 @@ use crate::subject::*;
 use ctap_types::ctap2::{Operation, VendorOperation};
 use serde_json::{json, Value};
 
+const P_: &str = "C11";
+
 fn anchors() -> Vec<Vec<u8>> {
     let mut v = Vec::new();
     for cmd in [Cmd::MakeCredential, Cmd::GetAssertion, Cmd::ClientPin, Cmd::CredentialManagement, Cmd::LargeBlobs] {
@@ -286,6 +288,102 @@ pub fn run(ctx: &'static Ctx) {
             l.fail(ctx, idx, v, || json!({"kind": "op-table", "byte": idx}));
         }
     });
+    // the whole message, command byte included, happens to be one well-formed CBOR item (a string
+    // head whose announced length is exactly the rest of the message, an array / map head with that
+    // many items, an integer with its following bytes, a tag, a simple value)
+    {
+        let mut msgs: Vec<Vec<u8>> = Vec::new();
+        for b in 0..=255u8 {
+            let (major, info) = (b >> 5, b & 31);
+            let args: Vec<(Vec<u8>, u64)> = match info {
+                0..=23 => vec![(vec![], info as u64)],
+                24 => [24u64, 100, 255].iter().map(|n| (vec![*n as u8], *n)).collect(),
+                25 => [256u64, 1000, 7000].iter().map(|n| ((*n as u16).to_be_bytes().to_vec(), *n)).collect(),
+                26 => vec![(vec![0, 0, 1, 0], 256)],
+                27 => vec![(vec![0, 0, 0, 0, 0, 0, 1, 0], 256)],
+                _ => vec![(vec![], 0)],
+            };
+            for (arg, n) in args {
+                let mut m = vec![b];
+                m.extend_from_slice(&arg);
+                match major {
+                    2 => m.extend(std::iter::repeat(0x5a).take(n as usize)),
+                    3 => m.extend(std::iter::repeat(b'a').take(n as usize)),
+                    4 => m.extend(std::iter::repeat(0x00).take(n as usize)),
+                    5 => m.extend(std::iter::repeat(0x00).take(2 * n as usize)),
+                    6 => m.push(0x00),
+                    _ => {}
+                }
+                if m.len() <= 7609 {
+                    msgs.push(m.clone());
+                    // ... and one byte more / fewer than announced
+                    let mut longer = m.clone();
+                    longer.push(0x00);
+                    msgs.push(longer);
+                    if m.len() > 1 {
+                        m.pop();
+                        msgs.push(m);
+                    }
+                }
+            }
+        }
+        let mr = &msgs;
+        sweep(ctx, "messages that are one CBOR item as a whole", msgs.len() as u64, "for every first byte read as a CBOR head: the message completed to exactly one well-formed item (strings of 24 / 100 / 255 / 256 / 1000 / 7000 bytes, arrays, maps, tags), and one byte longer / shorter", move |idx, l| {
+            let m = &mr[idx as usize];
+            l.nontrivial += 1;
+            l.bump("whole-message item");
+            let v = check_point(m[0], &m[1..]);
+            if !v.ok {
+                l.fail(ctx, idx, v, || json!({"kind": "cmd-payload", "byte": m[0], "payload": hex(&m[1..])}));
+            }
+        });
+    }
+    // no memory between calls: every ordered pair of a corpus of complete messages (both
+    // credential-management bytes with every sub-command, every parameter-less command, anchors)
+    {
+        let mut corpus: Vec<(String, Vec<u8>)> = Vec::new();
+        for cmd in [0x0au8, 0x41] {
+            for sub in 1..=7u64 {
+                let mut m = vec![cmd];
+                m.extend(crate::refcbor::encode(&V::M(vec![(V::U(1), V::U(sub))])));
+                corpus.push((format!("0x{:02x} sub-command {}", cmd, sub), m));
+                let mut m = vec![cmd];
+                m.extend(crate::refcbor::encode(&V::M(vec![(V::U(1), V::U(sub)), (V::U(3), V::U(1)), (V::U(4), V::B(vec![7; 16]))])));
+                corpus.push((format!("0x{:02x} sub-command {} with pin auth", cmd, sub), m));
+            }
+        }
+        for b in [0x04u8, 0x07, 0x08, 0x0b, 0x40, 0x42, 0x7f, 0x09, 0x0d, 0x00, 0xff] {
+            corpus.push((format!("0x{:02x}", b), vec![b]));
+        }
+        for (i, a) in anchors.iter().enumerate() {
+            let cmd = [0x01u8, 0x02, 0x06, 0x0a, 0x0c][i / 2];
+            let mut m = vec![cmd];
+            m.extend_from_slice(a);
+            corpus.push((format!("0x{:02x} anchor {}", cmd, i % 2), m));
+        }
+        let items: Vec<(String, Box<dyn Fn() -> String + Sync>)> = corpus.into_iter().map(|(l, m)| (l, Box::new(move || decode_request(&m).show()) as Box<dyn Fn() -> String + Sync>)).collect();
+        pair_histories(ctx, P_, "message decode call pairs", "every ordered pair of 49 complete messages decoded back to back: the second result must not depend on the first", &items);
+    }
+    // the tables keep no memory: every ordered pair of command bytes, looked up and decoded back to back
+    {
+        let show = |b: u8| -> String {
+            let op = guard(|| format!("{:?}/{:?}", Operation::try_from(b), VendorOperation::try_from(b))).unwrap_or_else(|p| format!("PANIC {}", p));
+            format!("{} {}", op, decode_request(&[b, 0xa0]).show())
+        };
+        let base: Vec<String> = (0..=255u8).map(show).collect();
+        let br = &base;
+        sweep_seq(ctx, "ordered pairs of command bytes", 65536, "Operation::try_from, VendorOperation::try_from and Request::deserialize([b, A0]) for byte b right after the same three calls for byte a, every (a, b): same result as on its own", move |idx, l| {
+            let (a, b) = ((idx >> 8) as u8, idx as u8);
+            l.nontrivial += 1;
+            let _ = show(a);
+            let got = show(b);
+            l.bump("byte pair");
+            if got != br[b as usize] {
+                let v = Verdict::fail(format!("{}|result-depends-on-previous-call", P_), br[b as usize].clone(), format!("{} after byte 0x{:02x}", got, a));
+                l.fail(ctx, idx, v, || json!({"kind": "call-pair", "first": a, "second": b, "note": "re-run the check to replay: the outcome depends on process history"}));
+            }
+        });
+    }
     ctx.require_outcomes(&["invalid-command bytes", "parameterless", "parameter-bearing", "recognised byte", "unrecognised byte"]);
     ctx.sample(json!({"byte": "0x41", "payload": hex(&anchors[6]), "oracle": "decodes exactly like 0x0a"}));
     ctx.sample(json!({"byte": "0x0d", "payload": "ffff", "oracle": "Err(0x01) whatever follows"}));
@@ -296,6 +394,7 @@ pub fn replay(case: &Value) -> Verdict {
     match case["kind"].as_str() {
         Some("cmd-payload") => check_point(case["byte"].as_u64().unwrap() as u8, &unhex(case["payload"].as_str().unwrap())),
         Some("op-table") => check_tables(case["byte"].as_u64().unwrap() as u8),
+        Some("call-pair") => Verdict::pass(), // history-dependent: only a fresh run of the check can reproduce it
         _ => machinery_panic("C11: unknown replay kind"),
     }
 }
